@@ -230,6 +230,33 @@ def sweep (W S B P lo hi : Nat) : String :=
   | .ok (h, count) => toHex count ++ " " ++ toHex h.toNat
   | .error e => e
 
+/-- glue constructors: `ansr` (`from_reversed_compressed`: the data is consumed front to back, so
+    it *is* the top-first list; `Reverse<Cursor>` positions count consumed words and `seek`
+    passes through), `ansi` (`from_reversed_compressed_iter`), `ansb` (`from_binary_slice`) -/
+def doOpGlue (W S : Nat) (data : List Nat) (seekable : Bool) (x : Coder) (seg : List String) :
+    Option (Coder × String × Bool) :=
+  match seg with
+  | ["dec", _, _, _] => doOp W S x seg
+  | ["empty"] => doOp W S x seg
+  | ["state"] => some (x, toHex x.state, false)
+  | ["pos"] => if seekable then some (x, toHex (data.length - x.bulk.length) ++ " " ++ toHex x.state, false) else none
+  | ["seek", l, s] =>
+    if seekable then do
+      let l ← parseHex l
+      let s ← parseHex s
+      if l ≤ data.length then some ({ x with bulk := data.drop l, state := s }, "ok", false)
+      else some (x, "err", false)
+    else none
+  | _ => none
+
+def runOpsGlue (W S : Nat) (data : List Nat) (seekable : Bool) : Coder → List (List String) → List String → List String
+  | _, [], acc => acc.reverse
+  | x, seg :: rest, acc =>
+    match doOpGlue W S data seekable x seg with
+    | none => ("bad-op" :: acc).reverse
+    | some (y, out, dead) =>
+      if dead then (out :: acc).reverse else runOpsGlue W S data seekable y rest (out :: acc)
+
 def handle (segs : List (List String)) : String :=
   match segs with
   | ["ans", w, s] :: init :: ops =>
@@ -248,17 +275,29 @@ def handle (segs : List (List String)) : String :=
     match parseHex w, parseHex s with
     | some W, some S => handleSpec W S ops
     | _, _ => "bad-op"
-  | ["ansc", w, s, cap] :: ops =>
-    match parseHex w, parseHex s, parseHex cap with
-    | some W, some S, some n =>
-      " | ".intercalate (runOpsCursor W S none { bulk := [], state := 0, cap := some n } ops ["ok"])
-    | _, _, _ => "bad-op"
   | ["ansd", w, s] :: [ws] :: ops =>
     match parseHex w, parseHex s, parseList ws with
     | some W, some S, some d =>
       match fromCompressed (cfgOf W S 1 1) d.reverse with
       | some x => " | ".intercalate (runOpsCursor W S (some d) { x with cap := some d.length } ops ["ok"])
       | none => "err"
+    | _, _, _ => "bad-op"
+  | [kind, w, s] :: [ws] :: ops =>
+    if kind == "ansr" || kind == "ansi" || kind == "ansb" then
+      match parseHex w, parseHex s, parseList ws with
+      | some W, some S, some d =>
+        if kind == "ansb" then
+          " | ".intercalate (runOpsGlue W S d false (fromBinary (cfgOf W S 1 1) d.reverse) ops ["ok"])
+        else
+          match fromCompressed (cfgOf W S 1 1) d with
+          | some x => " | ".intercalate (runOpsGlue W S d (kind == "ansr") x ops ["ok"])
+          | none => "err"
+      | _, _, _ => "bad-op"
+    else "bad-op"
+  | ["ansc", w, s, cap] :: ops =>
+    match parseHex w, parseHex s, parseHex cap with
+    | some W, some S, some n =>
+      " | ".intercalate (runOpsCursor W S none { bulk := [], state := 0, cap := some n } ops ["ok"])
     | _, _, _ => "bad-op"
   | _ => "bad-op"
 
